@@ -383,7 +383,7 @@ def main():
         "notes": "Fix commits in /repo (one defect each, unguarded, baseline tests pass): 06a3c94 D1, "
                  "c92fc35 D2, 76249d2 D17, 8044325 D21, 85874ae D23, 90aa816 D10/D20, 021c147 D18, "
                  "032aa69 D9, e129cca D28, ae2fc0b D29, 53b5212 D32, 588c0c9 D34; open known findings in known_findings.json; "
-                 "DESIGN.md section 10 describes what was built, 10.5 the 220 independently seeded "
+                 "DESIGN.md section 10 describes what was built, 10.5 the 254 independently seeded "
                  "breaking changes under seeded/ and which checks report them.",
         "not_applicable": [{"property_id": p, "reason": NOT_YET} for p in ids if p not in CLAIMED],
     }
